@@ -59,12 +59,18 @@ def main : IO Unit := do
   let f : Frame := ⟨0x1111, 0x33, 0x246, 0x7fff0000, 0x2b⟩
   if frameValueIretq f != some (expectedResume f) then
     mism := mism ++ [s!"InterruptStackFrameValue::iretq on {repr f} resumes {repr (frameValueIretq f)} :: {repr (expectedResume f)}"]
-  -- macro forms
-  if Form.whole.toRange != some (.incl 0 255) then
-    mism := mism ++ [s!"set_general_handler!(idt, h) forwards {repr Form.whole.toRange} :: 0..=255"]
-  for i in [0, 7, 14, 255] do
-    if (Form.single i).toRange != some (.incl i i) then
-      mism := mism ++ [s!"set_general_handler!(idt, h, {i}) forwards {repr (Form.single i).toRange} :: {i}..={i}"]
+  -- macro forms, by the meaning of the forwarded range
+  let denotes (f : Form) (p : Nat → Bool) : Option Nat :=
+    match f.toRange with
+    | some r => (List.range 256).find? (fun v => r.contains v != p v)
+    | none => some 256
+  match denotes .whole (fun _ => true) with
+  | some v => mism := mism ++ [s!"set_general_handler!(idt, h) forwards {repr Form.whole.toRange}, which does not contain vector {v} :: every vector 0..=255"]
+  | none => pure ()
+  for i in List.range 256 do
+    match denotes (.single i) (fun v => v == i) with
+    | some v => mism := mism ++ [s!"set_general_handler!(idt, h, {i}) forwards {repr (Form.single i).toRange}, wrong about vector {v} :: exactly vector {i}"]
+    | none => pure ()
   if (Form.range (.excl 3 9)).toRange != some (.excl 3 9) then
     mism := mism ++ ["set_general_handler!(idt, h, range) does not forward the range unchanged"]
   for m in mism do
